@@ -127,6 +127,13 @@ def install_walker_env(ctx, eng, nsources=1):
         n.attrs["follow"] = args[1]
         return Outcome(n, events=[Event("WalkDir::follow_links", [args[1]], None)])
     S(r"^WalkDir::follow_links$", s_follow)
+    def s_wd_other(eng, st, callee, args, dty):
+        w = args[0]
+        n = OpaqueV("WalkDir", None, dict(w.attrs))
+        meth = callee.split("::")[-1]
+        n.attrs[meth] = args[1] if len(args) > 1 else True
+        return Outcome(n, events=[Event("WalkDir::" + meth, list(args[1:]), None)])
+    S(r"^WalkDir::(follow_root_links|min_depth|max_depth|same_file_system|contents_first|max_open)$", s_wd_other)
     S(r"^<WalkDir as IntoIterator>::into_iter$", lambda e, st, c, a, d: Outcome(OpaqueV("walkdir::IntoIter", None, dict(a[0].attrs))))
 
     def s_filter_entry(eng, st, callee, args, dty):
@@ -404,6 +411,9 @@ def lemma_tree_walker(ctx):
                 (ctx.passed if is_err(p.ret) else ctx.fail)("C08: a collision ends the walk with an error", str(names[-5:]))
                 continue
             if not kind:
+                if not any(is_errev(e) for e in sev) and not errup:
+                    ctx.fail("C02: no walked entry is silently skipped (every entry is classified and acted upon, or the walk fails)",
+                             "entry %r: %s" % (seg["expr"], [e.name for e in sev]))
                 continue
             k = kind[0].args[1]
             frm_expected = ("canon", seg["expr"]) if canon else seg["expr"]
@@ -474,6 +484,9 @@ def lemma_tree_walker(ctx):
         # C13/F8: dereference must make the walk follow links to directories
         wd = [e for e in ev if e.name == "WalkDir::new"]
         fl = [e for e in ev if e.name == "WalkDir::follow_links"]
+        for e in ev:
+            if e.name in ("WalkDir::min_depth", "WalkDir::max_depth", "WalkDir::same_file_system"):
+                ctx.fail("C02: the walk is not restricted in depth or to one file system (every entry of the tree is selected)", e.name)
         if wd:
             if fl:
                 ctx.lemma(eng, "C13: with --dereference the walk follows links to directories (their contents are copied)", p.pc, fl[0].args[0].t == cv["dereference"].t)
